@@ -1,6 +1,7 @@
 -------------------------- MODULE TraceClientMirror --------------------------
 (* Batch trace validation for ClientMirror.tla.  TRACE_FILE: JSON array of traces (sequences of events)
      [o |-> "recv", m |-> message] | [o |-> "on", cb |-> callback] | [o |-> "rmid", id] | [o |-> "rmcrit", dev, vec, el, ty] | [o |-> "tick"]
+     | [o |-> "edit", dev, vec, el, x] | [o |-> "submit", dev, vec]     (client writes, Which = "C06"; obs.sent = messages handed to the connection)
    each with obs |-> [ devs |-> <<names>>, vecs |-> << [dev, name, kind, st, els] >>, evs |-> << event >>,
                        calls |-> << <<callback id, event, late>> >>, ntasks, raised (BOOLEAN), alive (BOOLEAN: receive loop running) ]
    Which = "C15": the mirror equals the reference interpreter's (Recv) and nothing raised / the loop is alive.
@@ -21,6 +22,8 @@ Post == CASE E.o = "recv"   -> Recv(C, E.m)
           [] E.o = "rmcb"   -> RmById(C, E.id)          \* removal by callback: each registered callback is its own function
           [] E.o = "rmcrit" -> RmByCriteria(C, E.dev, E.vec, E.el, E.ty)
           [] E.o = "tick"   -> RunTasks(C)
+          [] E.o = "edit"   -> Edit(C, E.dev, E.vec, E.el, E.x)
+          [] E.o = "submit" -> Submit(C, E.dev, E.vec)
           [] E.o = "recvbad" -> Fresh(C)        \* an ill-formed BLOB update (declared size # payload): rejected as a whole
 CanonV(vs) == {[dev |-> vs[i].dev, name |-> vs[i].name, kind |-> vs[i].kind, st |-> vs[i].st, els |-> vs[i].els] : i \in DOMAIN vs}
 CanonE(es) == [i \in DOMAIN es |-> Ev(es[i].ty, es[i].dev, es[i].vec, es[i].el, es[i].old, es[i].new)]
@@ -46,13 +49,23 @@ EventsOK(Q) == /\ SameBag(Q.evs, CanonE(E.obs.evs))
                /\ (E.o = "recv" /\ (\A i \in DOMAIN C.cbs : C.cbs[i].rm = 0) => CanonC(E.obs.calls) = ExpectedCalls(C.cbs, CanonE(E.obs.evs)))
                \* never after removal (a coroutine callback that was scheduled while registered may still run later)
                /\ \A i \in DOMAIN E.obs.calls : ~E.obs.calls[i][3] => E.obs.calls[i][1] \in {C.cbs[j].id : j \in DOMAIN C.cbs}
+\* C06, client side: what a submit hands to the connection - one message for the addressed property listing exactly the
+\* elements assigned since the last submit, with the assigned values; an assignment alone sends nothing and changes no mirrored value
+CanonS(ms) == [i \in DOMAIN ms |-> [dev |-> ms[i].dev, vec |-> ms[i].vec, kind |-> ms[i].kind, els |-> [j \in DOMAIN ms[i].els |-> <<ms[i].els[j][1], ms[i].els[j][2]>>]]]
+SentOK(Q) == /\ Len(Q.sent) = Len(E.obs.sent)
+             /\ \A i \in DOMAIN Q.sent : LET a == Q.sent[i]  b == CanonS(E.obs.sent)[i] IN
+                   /\ a.dev = b.dev /\ a.vec = b.vec /\ a.kind = b.kind
+                   /\ Len(a.els) = Len(b.els) /\ Range(a.els) = Range(b.els)       \* the order of the members is not part of C06
+             /\ (E.o \in {"edit", "submit"} => E.obs.evs = <<>> /\ ~E.obs.raised)
 DebugOn == "VERIF_DEBUG" \in DOMAIN IOEnv
 Step == /\ l <= Len(Tr) /\ l' = l + 1 /\ UNCHANGED tid
         /\ C' = Post
         /\ (DebugOn => PrintT(<<"POST", l, [vecs |-> Post.vecs, devs |-> Post.devs, evs |-> Post.evs, calls |-> Post.calls, nt |-> Len(Post.tasks), cbs |-> Post.cbs,
                                             chain |-> Hist[1], cur |-> LastIsCurrent(ObsMirror, Hist[2]), idle |-> NoIdleEvents(ObsMirror, CanonE(E.obs.evs))]>>))
         /\ last' = Hist[2]
-        /\ IF Which = "C15" THEN MirrorOK(C') ELSE MirrorOK(C') /\ EventsOK(C')
+        /\ CASE Which = "C15" -> MirrorOK(C')
+             [] Which = "C06" -> MirrorOK(C') /\ SentOK(C')
+             [] OTHER -> MirrorOK(C') /\ EventsOK(C')
 TraceSpec == TraceInit /\ [][Step]_<<tid, l, C, last>>
 Progress == TLCSet(tid, IF TLCGet(tid) > l THEN TLCGet(tid) ELSE l)
 Bad == {t \in 1..N : TLCGet(t) # Len(Traces[t]) + 1}
